@@ -74,7 +74,12 @@ impl Encoder for TTYEncoder {
             DecModeGet(mode) => {
                 write!(out, "\x1b[?{}$p", mode as usize)?;
             }
-            CursorTo(pos) => write!(out, "\x1b[{};{}H", pos.row + 1, pos.col + 1)?,
+            CursorTo(pos) => write!(
+                out,
+                "\x1b[{};{}H",
+                pos.row.saturating_add(1),
+                pos.col.saturating_add(1)
+            )?,
             CursorMove { row, col } => {
                 match col.cmp(&0) {
                     Ordering::Greater => write!(out, "\x1b[{}C", col)?,
@@ -208,7 +213,12 @@ impl Encoder for TTYEncoder {
             },
             ScrollRegion { start, end } => {
                 if end > start {
-                    write!(out, "\x1b[{};{}r", start + 1, end + 1)?;
+                    write!(
+                        out,
+                        "\x1b[{};{}r",
+                        start.saturating_add(1),
+                        end.saturating_add(1)
+                    )?;
                 } else {
                     write!(out, "\x1b[r")?;
                 }
